@@ -284,3 +284,103 @@ def replay_syntax(w):
     a = bool(mk.FordLinkProcessor.LINK_RE.fullmatch(w["text"]))
     b = bool(doc.fullmatch(w["text"]))
     return a != b, {"text": w["text"], "LINK_RE": a, "documented": b}
+
+
+# ---------------------------------------------------------------------------------------
+# O3: references written in the PROJECT FILE: the front page lives at the root of project_url, whatever that option is
+# ---------------------------------------------------------------------------------------
+PROJECT_URLS = ["", "https://example.com/docs", "http://host.org/a/b/", "/srv/www/docs"]
+PF_LINKS = [("[[mod_a]]", "mod_a"), ("[[mod_b:scale]]", "mod_b/scale"), ("[[stack(type)]]", "mod_a/stack"), ("[[MOD_A(module):work]]", "mod_a/work")]
+
+
+def _run_main(project_url, link_text):
+    """the real ford.parse_arguments + ford.main on a pre-parsed project; the HTML writer is replaced by a recorder"""
+    import io, contextlib, re as _re, tempfile, shutil as _sh
+    import ford
+    import ford.fortran_project as fp
+    import ford.output as fout
+    from ford.settings import ProjectSettings
+
+    d = tempfile.mkdtemp(prefix="fvc11-")
+    captured = {}
+
+    class Capture:
+        def __init__(self, data, proj_docs, project, pagetree):
+            captured["docs"] = proj_docs
+
+        def writeout(self):
+            pass
+
+    old = (fp.Project, fout.Documentation)
+    try:
+        with contextlib.redirect_stdout(io.StringIO()), contextlib.redirect_stderr(io.StringIO()):
+            project = parserh.project_concrete({k: list(v) for k, v in PROG.items()}, correlate=False, **PSET)  # main() correlates
+            fp.Project = lambda st: project
+            fout.Documentation = Capture
+            data = ProjectSettings(src_dir=["./src"], output_dir="./doc", project_url=project_url, preprocess=False, graph=False, search=False)
+            proj_docs, data = "See " + link_text + " for details.", data
+            res = ford.parse_arguments({}, proj_docs, data, pathlib.Path(d))
+            data, proj_docs = res if isinstance(res[0], ProjectSettings) else res[::-1]
+            ford.main(data, proj_docs)
+        m = _re.search(r"""href=["']([^"']*)["']""", captured.get("docs", ""))
+        return (m.group(1) if m else None), project
+    finally:
+        fp.Project, fout.Documentation = old
+        _sh.rmtree(d, ignore_errors=True)
+
+
+def replay_pf_link(w):
+    import ford.sourceform as sf
+    old = sf.namelist
+    sf.namelist = sf.NameSelector()
+    try:
+        href, project = _run_main(w["project_url"], w["link"])
+        want = _entity(project, w["path"]).get_url()
+    finally:
+        sf.namelist = old
+    return href != want, {"project_url": w["project_url"], "reference in the project file": w["link"], "href on the front page": href,
+                          "page of the entity relative to the front page": want}
+
+
+@obligation("C11", "O3.project-file-references", engine="SX(CV)", timeout=900)
+def project_file_links(ctx):
+    """a [[...]] reference in the project file (symbolic spelling) under a symbolic project_url option (empty, http(s), absolute path): the
+    href on the front page is the entity's page relative to the documentation root (the front page is index.html at that root)"""
+    import ford
+
+    ctx.encode_fn(ford.main)
+    ctx.encode_fn(ford.parse_arguments)
+    ctx.bounds.update({"project_url values": PROJECT_URLS, "references": [l for l, _ in PF_LINKS]})
+    ctx.stubs.append("Project(...) returns the pre-parsed catalogue project; Documentation is a recorder of the converted project-file text")
+
+    def h(E):
+        u = CV.choice(E, "project_url", PROJECT_URLS).concretize()   # python-markdown needs concrete text: one path per combination
+        l = CV.choice(E, "link", list(range(len(PF_LINKS)))).concretize()
+        text, path = PF_LINKS[l]
+        E.e.snapshot = lambda m: {"project_url": u, "link": text, "path": path}
+        import ford.sourceform as sf
+        from fv import patch as _patch
+        with _patch.suspended():
+            old = sf.namelist
+            sf.namelist = sf.NameSelector()
+            try:
+                href, project = _run_main(u, text)
+                want = _entity(project, path).get_url()
+            finally:
+                sf.namelist = old
+        E.reachable("converted")
+        E.require(href == want, "reference in the project file does not lead to the entity's page from the front page")
+
+    E = sym.Engine(ctx, max_paths=500, incremental=True)
+    found = E.explore(h)
+    seen = set()
+    for (label, m, pc), snap in zip(found, E.snapshots):
+        if label in seen or not snap:
+            continue
+        seen.add(label)
+        ctx.report(label, snap, replay_pf_link)
+    if E.reached.get("converted"):
+        ctx.twins += 1
+    else:
+        ctx.inconclusive.append("vacuity: nothing converted")
+    ctx.sample({"paths": E.paths})
